@@ -466,6 +466,8 @@ class Engine:
                 self.pending_exits.append(Exit('raise', st.fork(), exc='TypeError', line=e.lineno))
                 st.pc.append(z3.BoolVal(False))
                 return v
+        if isinstance(e.op, ast.UAdd) and v.ty.k in ('int', 'real'):
+            return v
         raise OutOfSubset('unary %s on %r' % (type(e.op).__name__, v.ty))
 
     def ev_BoolOp(self, e, st):
@@ -519,6 +521,10 @@ class Engine:
                 return vint(x / y)          # SMT integer division = Python floor division for a positive divisor
         if a.ty.k == 'vec' or b.ty.k == 'vec':
             return self.vec_arith(op, a, b, st, line)
+        if isinstance(op, ast.Add) and {a.ty.k, b.ty.k} == {'int', 'arr1i'}:
+            arr, sc = (a, b) if a.ty.k == 'arr1i' else (b, a)
+            kk = fresh('k', I)
+            return V(TArr1i, z3.Lambda([kk], arr.t[kk] + sc.t), items=arr.items, py='fresh')      # numpy broadcasting of a python int (unbounded ints)
         if a.ty.k == 'arr2' or b.ty.k == 'arr2':
             ii, jj = fresh('i', I), fresh('j', I)
             if isinstance(op, ast.Add) and a.ty.k == 'arr2' and b.ty.k == 'arr2':
@@ -667,6 +673,10 @@ class Engine:
         base = self.ev(e.value, st)
         if base.ty.k == 'py':
             return vpy(('attr', base.py, e.attr))
+        if base.ty.k in ('arr1', 'arr1i') and e.attr == 'shape':
+            return V(TTuple(TInt), items=[vint(base.items[0])])
+        if base.ty.k == 'arr2' and e.attr == 'shape':
+            return V(TTuple(TInt, TInt), items=[vint(base.items[0]), vint(base.items[1])])
         if base.ty.k == 'arr2' and e.attr == 'T':
             ii, jj = fresh('i', I), fresh('j', I)
             return V(TArr2, z3.Lambda([ii, jj], base.t[jj, ii]), items=[base.items[1], base.items[0]], py='fresh')
@@ -974,6 +984,12 @@ class Engine:
             return VNONE          # dropped (extraction report)
         if what[0] == 'attr' and what[1] == ('module', 'np') and what[2] == 'zeros' and len(args) == 1 and args[0].ty.k == 'tuple':
             dims = args[0].items
+            dt = kw.get('dtype')
+            if dt is not None and not (dt.ty.k == 'py' and dt.py == ('builtin', 'int')):
+                raise OutOfSubset('np.zeros with dtype %r at line %d (only the unbounded python int is modelled)' % (dt.py if dt.ty.k == 'py' else dt.ty, line))
+            if all(d.ty.k == 'int' for d in dims) and len(dims) == 1 and dt is not None:
+                self.emit('safe.shape@%d' % line, st, dims[0].t >= 0, line, tag='aux')
+                return V(TArr1i, z3.K(I, z3.IntVal(0)), items=[dims[0].t], py='fresh')
             if all(d.ty.k == 'int' for d in dims) and len(dims) == 1:
                 self.emit('safe.shape@%d' % line, st, dims[0].t >= 0, line, tag='aux')
                 return V(TArr1, z3.K(I, z3.RealVal(0)), items=[dims[0].t], py='fresh')
